@@ -4,39 +4,47 @@
 # invariant InvSafe (storage reserved <= 16 x input size, refused before allocation) is proved by TLC, two
 # deviation demos (allocate before read, unchecked negative length) must be caught; every stream is decoded by
 # the real decoder in a child process measuring runtime.MemStats.TotalAlloc against K*len + C, with a watchdog.
+import codec_common as cc
 import vf
 
 
 def body(run):
-    exe = [None]
-    jobs = [
+    q = run.quick()
+    exe = run.go_build("codec")
+    files = cc.schema_files(run, exe)
+    res = run.parallel(
         lambda: run.tlc("Codec", "Codec", "Codec_hostile_gen.cfg", mode="gen", timeout=3000,
                         label="contract InvSafe + rows: hostile streams"),
         lambda: run.tlc("Codec", "Codec", "Codec_dev_alloc.cfg", expect="violation", count=False,
                         label="deviation demo: allocating from the length prefix violates InvSafe"),
         lambda: run.tlc("Codec", "Codec", "Codec_dev_neglen.cfg", expect="violation", count=False,
                         label="deviation demo: unchecked negative array length violates InvSafe"),
-        lambda: exe.__setitem__(0, run.go_build("codec")),
-    ]
-    res = run.parallel(*jobs)
+        lambda: cc.value_rows(run, count=False),
+        lambda: cc.struct_rows(run, files, False, count=False))
     rows = res[0].rows
     if res[0].distinct != len(rows):
         raise vf.Inconclusive("hostile: %d states but %d rows" % (res[0].distinct, len(rows)))
-    extra = run.go_run(exe[0], ["-mode", "c02gen", "-n", str(run.pick(1, 6))], cases=[])
-    xrows = [r["case"] for r in extra if r.get("status") == "ok" and r.get("class") == "gen"]
-    run.log("TLC: %d states; %d model rows + %d registered-type streams" % (run.cov["states"], len(rows), len(xrows)))
-    results = run.go_run(exe[0], ["-mode", "c02"], cases=rows + xrows, timeout=2400)
+    # every built-in value and every registered structure: one of the positions the model marks as length /
+    # count / dimension replaced by a hostile value, and truncations at token boundaries
+    base = res[3].rows + res[4].rows
+    if q:   # seeded sample of the bases in the quick tier
+        import random
+        rnd = random.Random(run.seed)
+        base = [b for b in base if rnd.random() < 0.2]
+    xrows = cc.derive(run, exe, "c02derive", base, run.pick(1, 3))
+    run.log("TLC: %d states; %d model rows + %d derived streams" % (run.cov["states"], len(rows), len(xrows)))
+    results = run.go_run(exe, ["-mode", "c02"], cases=rows + xrows, timeout=3000)
     if len(results) != len(rows) + len(xrows):
         raise vf.Inconclusive("harness returned %d results for %d rows" % (len(results), len(rows) + len(xrows)))
     run.absorb(results)
     run.cov["rows_model"] = len(rows)
-    run.cov["rows_registered_types"] = len(xrows)
+    run.cov["rows_derived"] = len(xrows)
     run.cov["rule"] = ("one case per TLC state (base value x replaced field x hostile value, truncation point, dimension "
                        "vector, nesting depth) plus length-prefix mutations of encodings of every registered structure; "
                        "class = type x field x decodes")
     run.assumptions += [
         "allocation bound: TotalAlloc delta of the decode call <= 64 x len(input) + 1 MiB",
-        "prompt: a result within 10 s per input; address space limit 6 GiB and a 3 GiB watchdog as backstops",
+        "prompt: a result within 5 s per input; address space limit 6 GiB and a 3 GiB watchdog as backstops",
         "class-based adversarial generation, not an exhaustive byte fuzzer",
     ]
 
